@@ -62,7 +62,7 @@ func jsonNormalise(e *Expr) *Expr {
 		l := *c.Lit
 		c.Lit = &l
 	}
-	if c.Op == "not" && !(isBinOp(c.L.Op)) {
+	if c.Op == "not" && !(isBinOp(c.L.Op) || c.L.Op == "not") {
 		return Bin("==", TBool, c.L, LitB(false))
 	}
 	return &c
@@ -281,12 +281,18 @@ func runC18Case(c *Ctx, idx int) *CaseResult {
 		// number constants of every magnitude
 		raw.Walk(func(x *Expr) {
 			if x.Op == "lit" && x.Lit.K == TFloat && r.Intn(6) == 0 {
-				x.Lit.F = []float64{1e21, -1e21, 1.5e300, 1e-7, 123456789.25, 9007199254740992, 1e19, 4294967296.5}[r.Intn(8)]
+				x.Lit.F = []float64{1e21, -1e21, 1.5e300, 1e-7, 123456789.25, 9007199254740992, 1e19, 4294967296.5, 9223372036854775808, -9223372036854775808, 18446744073709551616}[r.Intn(11)]
 			}
 			if x.Op == "lit" && x.Lit.K == TInt && r.Intn(10) == 0 {
 				x.Lit.I = []int64{1 << 40, -(1 << 40), 1000000, 4503599627370496}[r.Intn(4)]
 			}
 		})
+		if raw.Ty == TBool && isBinOp(raw.Op) && r.Intn(8) == 0 {
+			raw = Not(Not(raw)) // nested one-operand nots
+			if r.Intn(3) == 0 {
+				raw = Not(raw)
+			}
+		}
 		cand := jsonNormalise(raw)
 		if !jsonExpressible(cand) {
 			continue
